@@ -631,8 +631,12 @@ def rule_text_not_counted(ctx, crate, rule="R-TEXT-NOT-COUNTED"):
         return
     b, p, commits, acc = info
     ctx.floor(rule, len(acc), 1, cfg, "per-line accumulations flowing into the committed row count")
+    bar_only = set()
+    for vs, reg in K.variant_only_regions(b, crate, LINETYPE):
+        if vs == {"Bar"}:
+            bar_only |= reg
     for c in acc:
-        ok = K.in_variant_region(b, crate, c.bb, LINETYPE, {"Bar"})
+        ok = K.in_variant_region(b, crate, c.bb, LINETYPE, {"Bar"}) or c.bb in bar_only
         ctx.check(ok, rule, "accumulate-under-Bar", b.name, c.loc(),
                   "the per-line height is added to the committed count only under the LineType::Bar edge",
                   "rows of text lines (println output) enter the count that the next draw erases", cfg)
@@ -746,8 +750,13 @@ def rule_height_guard(ctx, crate, rule="R-HEIGHT-GUARD"):
         for tgt, vs in K.edge_variants(crate, t, LINETYPE).items():
             if "Bar" not in vs:
                 nonbar_edges.append((sb, tgt))
+    # (when the line's kind is first stored in a flag - `let is_bar = matches!(line, Bar); if is_bar {..}` - the Bar-specialised
+    # CFG folds the flag: a bar line cannot take the `!is_bar` path around the height test)
+    _R_bar, avoid_bar = K.variant_reach(b, crate, LINETYPE, "Bar", want_avoid=True)
     for c in paints:
         reach_wo = b.reach([0], avoid_edges=fit_edges + nonbar_edges)
+        if c.bb in reach_wo:
+            reach_wo = b.reach([0], avoid_edges=set(fit_edges) | set(avoid_bar))
         ctx.check(c.bb not in reach_wo, rule, "paint-guarded", b.name, c.loc(),
                   "a line is painted only after the height test passed (bar line) or for a text line",
                   "a bar line can be painted without passing the terminal-height test", cfg)
@@ -1314,25 +1323,37 @@ def rule_painted_line_terminated(ctx, crate, rule="R-PAINTED-LINE-TERMINATED", k
         return [x for x in succs if x == tgt[0]]
     for k, (c, kind) in enumerate([(c_, kd) for c_ in paints for kd in ("text", "bar") if kd in kinds]):
         skip_edges = bar_edges if kind == "text" else text_edges
-        # walk from the continuation of the paint call; the environment holds what was assigned since
+        # Walk one iteration of the paint loop from its start (so that flags describing the line - `let is_bar = matches!(..)` -
+        # are known when the paint call is reached), under the assumption that this iteration's line is of `kind`; after the
+        # paint call, follow every feasible path until the line is terminated, the next line is painted, or flush() is reached.
+        loop_blocks = {c.bb} | {x for x in pb.reach_after(c.bb) if c.bb in pb.reach_after(x)}
+        starts = [pb.term(nb).get("t") for nb in next_bbs if nb in loop_blocks and pb.term(nb).get("t") is not None]
+        if not starts:
+            starts = [pb.term(c.bb).get("t")]
+            pre_passed = True
+        else:
+            pre_passed = False
         seen = set()
-        start = pb.term(c.bb).get("t")
-        work = [(start, frozenset(), True)] if start is not None else []
+        work = [(st_, frozenset(), True, pre_passed) for st_ in starts if st_ is not None]
         leak = None
         trail = {}
         while work and leak is None:
-            bb, envf, same_iter = work.pop()
-            if (bb, envf, same_iter) in seen or len(seen) > 6000:
+            bb, envf, same_iter, passed = work.pop()
+            if (bb, envf, same_iter, passed) in seen or len(seen) > 12000:
                 continue
-            seen.add((bb, envf, same_iter))
-            if bb in term_bbs or bb in paint_bbs:
+            seen.add((bb, envf, same_iter, passed))
+            if passed and (bb in term_bbs or bb in paint_bbs):
                 continue        # terminated - or the next line is being painted (its own walk covers what follows it)
             if bb in flush_bbs:
-                leak = bb
-                if os.environ.get("VERIF_DEBUG_TERMINATED"):
-                    print("LEAK at", bb, "env", sorted(dict(envf).items()), "same_iter", same_iter, "trail", trail.get((bb, envf, same_iter)))
-                break
+                if passed:
+                    leak = bb
+                    if os.environ.get("VERIF_DEBUG_TERMINATED"):
+                        print("LEAK at", bb, "env", sorted(dict(envf).items()), "same_iter", same_iter, "trail", trail.get((bb, envf, same_iter, passed)))
+                    break
+                continue
             if bb in next_bbs:
+                if not passed:
+                    continue    # this iteration painted nothing: not the iteration we follow
                 same_iter = False
             env = dict(envf)
             for st in pb.stmts(bb):
@@ -1344,14 +1365,15 @@ def rule_painted_line_terminated(ctx, crate, rule="R-PAINTED-LINE-TERMINATED", k
             tt = pb.term(bb)
             if tt and tt["k"] == "call" and not tt["dest"]["p"] and tt["dest"]["l"] in env:
                 del env[tt["dest"]["l"]]
+            now_passed = passed or bb == c.bb
             for x in feasible_succ(bb, env):
                 if same_iter and (bb, x) in skip_edges:
-                    continue        # the line just painted is of the other kind
+                    continue        # this iteration's line is of the other kind
                 if (bb, x) in done_edges:
                     continue        # all lines painted: the last iteration wrote the filler
-                work.append((x, frozenset(env.items()), same_iter))
+                work.append((x, frozenset(env.items()), same_iter, now_passed))
                 if os.environ.get("VERIF_DEBUG_TERMINATED"):
-                    trail.setdefault((x, frozenset(env.items()), same_iter), (trail.get((bb, envf, same_iter)) or []) + [bb])
+                    trail.setdefault((x, frozenset(env.items()), same_iter, now_passed), (trail.get((bb, envf, same_iter, passed)) or []) + [bb])
         if kind == "text":
             ctx.check(leak is None, rule, "terminated#%d" % (k // len(kinds)), pb.name, c.loc(),
                       "after a line of printed text is written, flush() is reached only through the next line's newline or the end-of-frame filler",
